@@ -14,8 +14,9 @@ OP_KEYS = {"id", "state", "is_assignable_state", "parents_complete"}
 
 class Peer:
     """the external scheduler: a naive policy (transcription of go/naive) that may also suspend a suspendable batch container"""
-    def __init__(self, rng, suspend_prob, multi=False, retry=False, parents=None, frac=False, over=False):
+    def __init__(self, rng, suspend_prob, multi=False, retry=False, parents=None, frac=False, over=False, escalate=None):
         self.rng, self.suspend_prob, self.multi = rng, suspend_prob, multi
+        self.erng = escalate      # also admissible: ask for a container priority other than the pipeline's (its own random stream, or None)
         self.frac = frac          # also admissible: ask for fractional CPUs / GB (binary fractions, so nothing is lost in JSON)
         self.over = over          # memory overcommit is on: one CPU and the pool's whole RAM per container, like overbook -> free RAM goes negative
         self.retry = retry        # also admissible: give a failed operator another try instead of dropping its pipeline
@@ -54,14 +55,14 @@ class Peer:
                         used.add(other["pipeline_id"])
                         o2 = next(o for o in other["operators"] if o["is_assignable_state"] and o["parents_complete"])
                         asg.append({"operator_ids": [ready[0]["id"], o2["id"]], "cpu": want_cpu, "ram_gb": want_ram,
-                                    "priority": p["priority"], "pool_id": pool["pool_id"], "is_resume": False, "force_run": False})
+                                    "priority": self.prio_for(p), "pool_id": pool["pool_id"], "is_resume": False, "force_run": False})
                         self.mixed = getattr(self, "mixed", 0) + 1
                         break
                 chosen = [o["id"] for o in p["operators"] if o["is_assignable_state"]] if self.multi and len(ready) == 1 and \
                     all(o["is_assignable_state"] or o["state"] == "completed" for o in p["operators"]) else [ready[0]["id"]]
                 if len(chosen) > 2 and self.parents and p["pipeline_id"] in self.parents:
                     chosen = self.some_order(p, chosen)
-                asg.append({"operator_ids": chosen, "cpu": want_cpu, "ram_gb": want_ram, "priority": p["priority"],
+                asg.append({"operator_ids": chosen, "cpu": want_cpu, "ram_gb": want_ram, "priority": self.prio_for(p),
                             "pool_id": pool["pool_id"], "is_resume": False, "force_run": False})
                 break
         if self.executor is not None and self.rng.random() < self.suspend_prob:
@@ -70,6 +71,12 @@ class Peer:
                     if c.can_suspend_container() and not sus:
                         sus.append({"container_id": c.container_id, "pool_id": pool.pool_id})
         return {"suspensions": sus, "assignments": asg}
+
+    def prio_for(self, p):
+        if self.erng is not None and self.erng.random() < 0.4:
+            self.escalated = getattr(self, "escalated", 0) + 1
+            return self.erng.choice([x for x in ("QUERY", "INTERACTIVE", "BATCH_PIPELINE") if x != p["priority"]])
+        return p["priority"]
 
     def some_order(self, p, chosen):
         """another admissible order of the same operators: a random order in which every operator still comes after its parents"""
@@ -220,8 +227,9 @@ def one_run(ctx, drv, rng):
     if directed:
         multi, poll = False, F(1, tps)
     over = (not heavy) and (not directed) and rng.random() < 0.25
+    esc = random.Random(tps * 8 + 4 * int(bool(multi)) + 2 * int(bool(over)) + int(bool(dag)))
     peer = Peer(rng, sus_prob, multi, retry=directed or (dag and rng.random() < 0.6), frac=rng.random() < 0.4, over=over,
-                parents={f"d{k}": [o["parents"] for o in p["ops"]] for k, p in enumerate(spec["pipes"])} if dag else None)
+                escalate=esc if esc.random() < 0.6 else None, parents={f"d{k}": [o["parents"] for o in p["ops"]] for k, p in enumerate(spec["pipes"])} if dag else None)
     srv = serve(peer)
     params = {"duration": rng.choice([20, 40]), "ticks_per_second": tps, "waiting_seconds_mean": rng.choice([0.5, 2.0, 6.0]),
               "num_pipelines": rng.randint(1, 3), "num_operators": 4 if heavy else rng.choice([2, 4]), "num_pools": rng.choice([1, 2, 3]), "cpus_per_pool": 8,
@@ -335,6 +343,7 @@ def one_run(ctx, drv, rng):
     ctx.sit("calls_showing_negative_free_ram", sum(1 for _, _, snap in peer.calls if snap and any(pl["avail_ram_gb"] < 0 for pl in snap)))
     ctx.sit("assignments_with_fractional_cpu_or_ram", getattr(peer, "fractional", 0))
     ctx.sit("failed_operators_retried", getattr(peer, "retried", 0))
+    ctx.sit("containers_given_another_priority_than_their_pipeline", getattr(peer, "escalated", 0))
     ctx.sit("containers_given_in_a_non_pipeline_order", getattr(peer, "reordered", 0))
     ctx.sit("assignments_issued_by_peer", sum(len(r["assignments"]) for _, r, _ in peer.calls))
     ctx.sit("pipelines_reported_complete", sum(1 for c in got for _, f in c["other"] if f))
